@@ -46,7 +46,8 @@ try:
     if ok:
         dst = "/verif/seeded/" + name
         os.makedirs(dst, exist_ok=True)
-        shutil.copy(src + "/patch.diff", dst + "/patch.diff")
+        if os.path.realpath(src) != os.path.realpath(dst):
+            shutil.copy(src + "/patch.diff", dst + "/patch.diff")
         open(dst + "/demo.py", "w").write(demo)
         json.dump(meta, open(dst + "/meta.json", "w"), indent=1)
         print("kept ->", dst, "caught_by", meta["caught_by"])
